@@ -133,6 +133,16 @@ func genTree(t *rapid.T) *gtree {
 		}
 		dir = g.nodes[len(g.nodes)-1].Path
 	}
+	if rapid.IntRange(0, 3).Draw(t, "mirror") == 0 {
+		// the jail's own names once more inside the root, so that names which
+		// spell the export's host path resolve some way when they are (as they
+		// must be) taken relative to the root
+		for _, n := range []Node{{Path: upName, Kind: "d"}, {Path: upName + "/" + exportName, Kind: "d"}, {Path: upName + "/canary", Kind: "f"},
+			{Path: upName + "/" + exportName + "/a", Kind: "d"}, {Path: "top-canary", Kind: "f"}}[:rapid.IntRange(2, 5).Draw(t, "nmirror")] {
+			g.nodes = append(g.nodes, n)
+			g.kind[n.Path] = n.Kind
+		}
+	}
 	extra := rapid.IntRange(0, 8).Draw(t, "extra")
 	for i := 0; i < extra; i++ {
 		ds := g.dirs()
@@ -154,11 +164,33 @@ var tailsAbove = []string{"top-canary", upName, upName + "/canary", upName + "/s
 
 func ups(k int) string { return strings.Repeat("../", k) }
 
+// Host paths as the chrooted child sees them (its Ufs.Root is rootInJail):
+// building blocks of names that embed the server's own idea of where the
+// export, its parent and the objects around it are.
+const parentInJail = "/" + upName
+
+// rootSpellings: the export's own absolute path (three times: the exact
+// string the server was given) and unclean or relative spellings of it.
+var rootSpellings = []string{rootInJail, rootInJail, rootInJail,
+	rootInJail + "/", "/" + rootInJail, parentInJail + "//" + exportName, parentInJail + "/./" + exportName, rootInJail + "/.",
+	parentInJail + "/sibling/../" + exportName, "/." + rootInJail, rootInJail + "/../" + exportName, upName + "/" + exportName}
+
+var parentSpellings = []string{parentInJail, parentInJail, parentInJail + "/", "/" + parentInJail, parentInJail + "/.", upName,
+	rootInJail + "/..", parentInJail + "/sibling/.."}
+
+// canaryPaths: absolute jail paths of objects outside the root.
+var canaryPaths = []string{parentInJail + "/canary", "/top-canary", parentInJail + "/sibling/sfile", parentInJail + "/sibling", parentInJail + "/sibling/sdir/deep",
+	parentInJail + "/zlink", rootInJail + "-private/pfile", rootInJail + "-private", rootInJail + "2/x", rootInJail + ".bak/b"}
+
+// afterPath: what follows an embedded host path.
+var afterPath = []string{"/..", "/../canary", "/../sibling/sfile", "/../newx", "/../../top-canary", "/../..", "/../" + exportName + "-private/pfile",
+	"/../" + exportName, "/../" + exportName + "/..", "/.", "/", "", "/a", "/newname", "/../../" + upName + "/canary"}
+
 // hostileName draws one name of the grammar; depth is the depth of the
 // directory the server will resolve it in. level bounds the recursion.
 func hostileName(t *rapid.T, depth, level int) (string, string) {
 	real := func() string { return rapid.SampledFrom(plainNames).Draw(t, "real") }
-	shape := rapid.IntRange(0, 17).Draw(t, "shape")
+	shape := rapid.IntRange(0, 21).Draw(t, "shape")
 	if level >= 2 && shape >= 12 && shape <= 15 {
 		shape -= 8
 	}
@@ -168,6 +200,54 @@ func hostileName(t *rapid.T, depth, level int) (string, string) {
 	case 17: // the same relative to the root (rename targets starting with '/')
 		pre := rapid.SampledFrom([]string{"/../", "/a/../../", "/./../", "//../"}).Draw(t, "pre")
 		return pre + exportName + rapid.SampledFrom(rootExt).Draw(t, "ext"), "root-name-extended-abs"
+	case 18: // the export's own host path first, then down and further up than down
+		n := rapid.SampledFrom(rootSpellings).Draw(t, "rootsp")
+		down := 0
+		for i, m := 0, rapid.IntRange(0, 3).Draw(t, "mid"); i < m; i++ {
+			el := rapid.SampledFrom([]string{"a", "b", "sub", ".", ""}).Draw(t, "el")
+			if i == 0 && rapid.Bool().Draw(t, "realel") {
+				el = real()
+			}
+			if el != "." && el != "" {
+				down++
+			}
+			n += "/" + el
+		}
+		over := rapid.SampledFrom([]int{1, 1, 1, 2, 2, 3}).Draw(t, "over")
+		n += "/" + ups(down+over)
+		if over == 1 {
+			n += rapid.SampledFrom(tailsNext).Draw(t, "tail")
+		} else {
+			n += rapid.OneOf(rapid.SampledFrom(tailsAbove), rapid.SampledFrom(tailsNext)).Draw(t, "tail")
+		}
+		return n, "hostpath-root-first"
+	case 19: // the host path of the root's parent or of a canary first
+		switch rapid.IntRange(0, 3).Draw(t, "how") {
+		case 0:
+			return rapid.SampledFrom(parentSpellings).Draw(t, "parentsp") + "/" + rapid.SampledFrom(tailsNext).Draw(t, "tail"), "hostpath-outside-first"
+		case 1:
+			return rapid.SampledFrom(parentSpellings).Draw(t, "parentsp") + "/../" + rapid.SampledFrom(tailsAbove).Draw(t, "tail"), "hostpath-outside-first"
+		case 2:
+			// a canary's path, back up to the root's parent (or to the top), then a tail
+			c := rapid.SampledFrom(canaryPaths).Draw(t, "canary")
+			if n := strings.Count(c, "/") - 1; n > 0 {
+				return c + strings.Repeat("/..", n) + "/" + rapid.SampledFrom(tailsNext).Draw(t, "tail"), "hostpath-outside-first"
+			}
+			return c + "/../" + rapid.SampledFrom(tailsAbove).Draw(t, "tail"), "hostpath-outside-first"
+		}
+		return rapid.SampledFrom(canaryPaths).Draw(t, "canary") + rapid.SampledFrom(afterPath).Draw(t, "after"), "hostpath-outside-first"
+	case 20, 21: // a host path in the middle (20) or at the end (21) of the name
+		k := rapid.IntRange(1, depth+3).Draw(t, "k")
+		pre := rapid.SampledFrom([]string{"./", real() + "/../", real() + "/", ups(depth + 1), ups(k), "/../", "/" + ups(k), "//", "/./",
+			real() + "/" + ups(k+1), "../" + exportName + "/", ups(depth+1) + exportName + "/../"}).Draw(t, "pre")
+		x := rapid.OneOf(rapid.SampledFrom(rootSpellings), rapid.SampledFrom(rootSpellings), rapid.SampledFrom(parentSpellings), rapid.SampledFrom(canaryPaths)).Draw(t, "x")
+		if rapid.Bool().Draw(t, "strip") {
+			x = strings.TrimLeft(x, "/")
+		}
+		if shape == 21 {
+			return pre + x, "hostpath-last"
+		}
+		return pre + x + rapid.SampledFrom(afterPath).Draw(t, "after"), "hostpath-middle"
 	case 0:
 		return "..", "dotdot"
 	case 1:
@@ -306,6 +386,18 @@ func genProbe(t *rapid.T, g *gtree, vec string, plain bool) Probe {
 				d = p.Depth
 			}
 			el, sh := name(d)
+			if strings.Contains(el, "/") && rapid.IntRange(0, 3).Draw(t, "split") == 0 {
+				// the same name spelt as separate walk elements
+				for _, part := range strings.Split(el, "/") {
+					if len(p.Names) < 16 {
+						p.Names = append(p.Names, part)
+						i++
+					}
+				}
+				shapes = append(shapes, sh, "split-into-elements")
+				known = false
+				continue
+			}
 			p.Names = append(p.Names, el)
 			shapes = append(shapes, sh)
 			switch {
@@ -447,7 +539,17 @@ func labelCase(c *Case) {
 	}
 }
 
+// needEnv skips a test when the jail or the child could not be set up at all
+// (infrastructure: reported as inconclusive, never as a failed property).
+func needEnv(t *testing.T) {
+	if _, err := getEnv(); err != nil {
+		hx.Inconclusive(err.Error())
+		t.Skip(err.Error())
+	}
+}
+
 func runProp(t *testing.T, test, vec string, quick, thorough int) {
+	needEnv(t)
 	hx.Check(t, test, hx.N(quick, thorough), func(t *rapid.T) {
 		c := genCase(t, vec)
 		hx.Journal(test, c)
@@ -529,6 +631,7 @@ func genRaceCase(t *rapid.T) *Case {
 }
 
 func TestPropRace(t *testing.T) {
+	needEnv(t)
 	hx.Check(t, "race", hx.N(300, 4000), func(t *rapid.T) {
 		c := genRaceCase(t)
 		hx.Journal("race", c)
@@ -595,7 +698,8 @@ func enumTree() []Node {
 
 // enumNames is the finite name list used at depth d: every degenerate name,
 // every climbing chain of 1..d+2 levels with every tail, absolute jail paths,
-// down-and-up names through directories and through the inward symlinks.
+// down-and-up names through directories and through the inward symlinks, and
+// names that hold the host path of the export, its parent or a canary.
 func enumNames(d int) []string {
 	out := []string{"..", ".", "", "/", "//", "./", "...", "..a", "a", "a/b", "a/..", "l/..", "a/b/up/..", "a/b/up/../..", "a/b/up/../../..",
 		"newname", "a/newname", "/newname", "/a", "./newname", "newname/"}
@@ -622,6 +726,21 @@ func enumNames(d int) []string {
 	for _, ab := range []string{upName + "/canary", upName + "/sibling/sfile", upName + "/sibling", "top-canary", upName, upName + "/" + exportName, upName + "/newabs"} {
 		out = append(out, "/"+ab)
 	}
+	// names that embed the export's own host path (as the server sees it),
+	// its parent's and the canaries', at the start, in the middle and at the end
+	for _, a := range afterPath {
+		out = append(out, rootInJail+a)
+	}
+	for _, a := range []string{"/a/../../canary", "/a/b/../../../sibling/sfile", "/./../canary", "//../canary", "/a/../../../top-canary", "/../../../../" + upName + "/canary", "/f/../../canary", "/sub/../../newx"} {
+		out = append(out, rootInJail+a)
+	}
+	for _, r := range []string{"/" + rootInJail, parentInJail + "//" + exportName, parentInJail + "/./" + exportName, upName + "/" + exportName} {
+		out = append(out, r+"/../canary", r+"/..", r+"/../newx")
+	}
+	out = append(out, parentInJail+"/../top-canary", parentInJail+"/sibling/../canary", parentInJail+"/canary/../sibling/sfile", parentInJail+"/canary/..", parentInJail+"/canary/.",
+		"/top-canary/../"+upName+"/canary", parentInJail+"/"+exportName+"-private/../canary", parentInJail+"/zlink", parentInJail+"//canary", parentInJail+"/newabs/../canary",
+		"a/.."+rootInJail+"/../canary", "./"+rootInJail+"/../canary", "/.."+rootInJail+"/../canary", "a"+rootInJail+"/../../canary", ups(d+1)+exportName+"/.."+rootInJail+"/../canary",
+		ups(d+2)+upName+"/"+exportName+"/../canary", "a/.."+parentInJail+"/canary", "/../.."+rootInJail, "a/.."+rootInJail, ups(d+2)+strings.TrimPrefix(rootInJail, "/")+"/..", "/.."+parentInJail)
 	seen := map[string]bool{}
 	var uniq []string
 	for _, n := range out {
@@ -721,7 +840,7 @@ func TestEnumSingle(t *testing.T) {
 	}
 	runEnum(t, "enum-single", cases)
 	if !t.Failed() {
-		hx.Exhaustive(fmt.Sprintf("fixed 8-node tree, .u: every name of the finite list enumNames(depth) (%d..%d names: degenerate names, every '../' chain of 1..depth+2 levels with every outside tail, absolute jail paths, down-and-up through directories and inward symlinks) as attach aname, as single walk element from depth 0/1/2, as Tcreate name (file, dir, symlink, link, named pipe opened OREAD; socket and device on the names without '/') at depth 0/1/2 and as Twstat rename target of the root, files, directories and symlinks at depth 0/1/2, each followed by stat, open+read, open+write, wstat, remove: %d sessions",
+		hx.Exhaustive(fmt.Sprintf("fixed 8-node tree, .u: every name of the finite list enumNames(depth) (%d..%d names: degenerate names, every '../' chain of 1..depth+2 levels with every outside tail, absolute jail paths, down-and-up through directories and inward symlinks, and names holding the host path of the export (/up/export and four other spellings), of its parent and of the canaries at the start, in the middle and at the end, followed by '..' chains, './', '//' and outside tails) as attach aname, as single walk element from depth 0/1/2, as Tcreate name (file, dir, symlink, link, named pipe opened OREAD; socket and device on the names without '/') at depth 0/1/2 and as Twstat rename target of the root, files, directories and symlinks at depth 0/1/2, each followed by stat, open+read, open+write, wstat, remove: %d sessions",
 			len(enumNames(0)), len(enumNames(2)), len(cases)))
 	}
 }
